@@ -2040,3 +2040,47 @@ mod tests {
         assert!(all_finite_insphere_2d);
     }
 }
+
+/// Forwarding wrappers over the private stages of the robust in-sphere cascade.
+///
+/// Compiled only with the `verif-hooks` cargo feature; used by external
+/// verification harnesses.
+#[cfg(feature = "verif-hooks")]
+#[doc(hidden)]
+#[allow(missing_docs, clippy::missing_errors_doc)]
+pub mod verif_hooks_robust {
+    use super::{
+        CoordinateConversionError, CoordinateScalar, InSphere, Orientation, Point,
+        RobustPredicateConfig,
+    };
+
+    pub fn adaptive_tolerance_insphere<T, const D: usize>(
+        simplex_points: &[Point<T, D>],
+        test_point: &Point<T, D>,
+        config: &RobustPredicateConfig<T>,
+    ) -> Result<InSphere, CoordinateConversionError>
+    where
+        T: CoordinateScalar,
+    {
+        super::adaptive_tolerance_insphere(simplex_points, test_point, config)
+    }
+
+    pub fn conditioned_insphere<T, const D: usize>(
+        simplex_points: &[Point<T, D>],
+        test_point: &Point<T, D>,
+        config: &RobustPredicateConfig<T>,
+    ) -> Result<InSphere, CoordinateConversionError>
+    where
+        T: CoordinateScalar,
+    {
+        super::conditioned_insphere(simplex_points, test_point, config)
+    }
+
+    pub fn interpret_insphere_determinant<T: CoordinateScalar>(
+        det: f64,
+        orientation: Orientation,
+        tolerance: T,
+    ) -> Result<InSphere, CoordinateConversionError> {
+        super::interpret_insphere_determinant(det, orientation, tolerance)
+    }
+}
